@@ -4,6 +4,7 @@ Same transition system as C02; every (initial workers, max workers) configuratio
 interleaving, no depth bound.
 -/
 import Vegeta.Proofs.AttackInv
+import Vegeta.Proofs.AttackAcceptSound
 namespace Vegeta.Props.C03
 open Vegeta.Model.Attack Vegeta.Proofs.Attack
 
@@ -147,6 +148,36 @@ theorem saturated_waits_for_one_consumption (h : Reachable w m d s) (hpc : s.pc 
         simp [step, hblk]
     · cases hd
   · cases hd
+
+theorem aux_insertSorted_length (x : Nat) (l : List Nat) : (insertSorted x l).length = l.length + 1 := by
+  induction l with
+  | nil => simp [insertSorted]
+  | cons y ys ih => unfold insertSorted; split <;> simp [ih]
+
+theorem aux_sortNat_length (l : List Nat) : (sortNat l).length = l.length := by
+  induction l with
+  | nil => simp [sortNat]
+  | cons x xs ih =>
+    have : sortNat (x :: xs) = insertSorted x (sortNat xs) := by simp [sortNat]
+    rw [this, aux_insertSorted_length, ih]; simp
+
+/-- **What the conformance check adds for C03**: in every trace the acceptor accepts, the number of
+requests observed inside the transport never exceeds max-workers at any recorded point. -/
+theorem accepted_trace_respects_cap (workers maxW : Nat) (o0 : Obs) (tr : List (Cmd × CmdObs × Obs))
+    (h : acceptRun workers maxW o0 tr = none) : ∀ x ∈ tr, x.2.2.inTransport.length ≤ maxW := by
+  intro x hx
+  obtain ⟨s, sc, hr, ho⟩ := (acceptRun_explained workers maxW o0 tr h).2 x hx
+  rw [← ho]
+  simp only [obsOf, aux_sortNat_length, List.length_map]
+  have h1 := inflight_le_configured_max hr
+  have h2 : (s.hits.filter fun h => h.phase == .hitting && h.entered.isSome && h.left.isNone).length ≤ busyHits s := by
+    rw [← List.countP_eq_length_filter]
+    unfold busyHits
+    apply aux_countP_le
+    intro a ha
+    simp at ha
+    simp [ha.1.1]
+  unfold inFlight at h1; omega
 
 /-! non-vacuity -/
 example : (run (init 0 1 0) [.paceWait 0, .wake]).map (fun s => (s.pc, inFlight s, s.maxW, s.stopClosed))
